@@ -2,6 +2,6 @@
 # dev helper: build the harness from a private copy in which other people's unfinished modules are taken from git HEAD
 set -e
 rm -rf /tmp/hbuild && mkdir -p /tmp/hbuild && cp -r /verif/harness/Cargo.toml /verif/harness/Cargo.lock /verif/harness/src /tmp/hbuild/
-for m in "$@"; do git -C /verif show 41db40c:harness/src/$m.rs > /tmp/hbuild/src/$m.rs; done
+for m in "$@"; do git -C /verif show HEAD:harness/src/$m.rs > /tmp/hbuild/src/$m.rs; done
 cd /tmp/hbuild && CARGO_NET_OFFLINE=true RUSTFLAGS='--cfg lopdf_verif -C overflow-checks=on -C debug-assertions=on' cargo build --release --offline --target-dir /verif/.cache/harness-target-mine 2>&1 | grep -E "^error" -A12 | head -50
 echo built
